@@ -262,6 +262,35 @@ def run_deps(spec):
     return out
 
 
+def run_provenance(spec):
+    """
+    One edition of a program on a persistent store (C10, editions part): the roots are called, then every memento in the
+    store is read back through NEW backend objects (from the files) and reported with its dependency set and invocations.
+    spec = {"pkgroot","pkg","modules","store","roots":[[mod,name]],"args":[...]}
+    """
+    import twosigma.memento as m
+    import verif_rt
+    setup_memento(spec["store"])
+    mods = import_program(spec["pkgroot"], spec["pkg"], spec["modules"])
+    verif_rt.take()
+    results = {}
+    for mname, name in spec["roots"]:
+        fn = getattr(mods[mname], name)
+        results["%s.%s" % (mname, name)] = [call_outcome(fn, a) for a in spec["args"]]
+    ran = [r if isinstance(r, str) else r[0] for r in verif_rt.take()]
+    setup_memento(spec["store"])
+    dump = []
+    for cn in (None, "c"):
+        st = m.Environment.get().get_cluster(cn).storage
+        for ref in st.list_functions():
+            for mem in st.list_mementos(ref, None):
+                r = mem.invocation_metadata.fn_reference_with_args
+                dump.append({"qn": r.fn_reference.qualified_name, "h": r.arg_hash,
+                             "deps": sorted(f.qualified_name for f in mem.function_dependencies),
+                             "inv": [[i.fn_reference.qualified_name, i.arg_hash] for i in mem.invocation_metadata.invocations]})
+    return {"results": results, "ran": ran, "dump": dump}
+
+
 def run_events(spec):
     """
     In-process event history with version queries (C13).
